@@ -18,9 +18,11 @@ TRANSPARENT_SUFFIX = (
     "core::convert::AsRef<U>>::as_ref",
     "alloc::borrow::ToOwned>::to_owned",
     "core::iter::traits::collect::IntoIterator>::into_iter",
-    "alloc::rc::Rc<T>::new",
-    "alloc::rc::Rc<T, A>::new",
-    "alloc::boxed::Box<T>::new",
+    "alloc::rc::Rc::<T>::new",
+    "alloc::boxed::Box::<T>::new",
+    "core::convert::Into::into",
+    "core::convert::From::from",
+    "core::clone::Clone::clone",
     "core::convert::identity",
     "core::ops::try_trait::FromResidual<core::result::Result<core::convert::Infallible, E>>>::from_residual",
 )
@@ -88,7 +90,14 @@ class Prov:
             c = op["const"]
             if "fn" in c:
                 return ("fnref", c["fn"]["path"])
-            return ("const", c.get("def") or c["d"], c.get("v"))
+            if "static" in c:
+                return ("static", c["static"])
+            if "promoted" in c:
+                return ("const", "promoted:" + c["ty"], None)
+            d = c["d"]
+            if "def" in c and not d.startswith("<"):
+                d = c["def"]
+            return ("const", d, c.get("v"))
         p = op_place(op)
         if p is None:
             return ("unknown", "runtime-check")
@@ -237,6 +246,10 @@ def _field(e, name):
         return ("ok", e[1][1])
     if e[0] == "as" and e[1][0] == "try" and e[2] == "Break" and name == "0":
         return ("err", e[1][1])
+    if e[0] == "as" and e[2] in ("Ok", "Some") and name == "0" and e[1][0] != "agg":
+        return ("ok", e[1])
+    if e[0] == "as" and e[2] == "Err" and name == "0" and e[1][0] != "agg":
+        return ("err", e[1])
     if e[0] == "as" and e[1][0] == "agg" and e[1][2] == e[2] and name in e[1][3]:
         return e[1][3][name]
     if e[0] == "phi":
@@ -260,6 +273,8 @@ def show(e, short=True):
         return str(e[1])
     if t == "fnref":
         return "fn:" + _short(e[1])
+    if t == "static":
+        return "static:" + _short(e[1])
     if t == "field":
         return show(e[1]) + "." + e[2]
     if t == "as":
@@ -324,7 +339,7 @@ def leaves(e):
     """Value sources of an expression: params, upvars, consts, non-transparent calls, unknowns."""
     out = []
     for s in walk(e):
-        if s[0] in ("param", "upvar", "const", "unknown", "fnref"):
+        if s[0] in ("param", "upvar", "const", "unknown", "fnref", "static"):
             out.append(s)
     return out
 
